@@ -35,6 +35,11 @@ def _conn(pid, what):
                  "sample of the seam-level TLC graph, seeded random scripts) run on a real StreamableHTTPHandler and judged by the " + pid + " clauses of StreamSrvMon "
                  + {"C02": "(HttpCallAnswered, HttpAnsweredAtMostOnce)", "C03": "(SameStreamOrder)", "C04": "(CancelNoticeReachesPeer)"}[pid] + "."
                  if pid in ("C02", "C03", "C04") else "")
+              + (" On the newline-delimited transports every reply framing (TLC-enumerated ordered partitions of the responses to 1-3 outstanding calls, with or without a notification and a call to "
+                 "the SDK, into bare messages and JSON arrays; exhaustive in the thorough tier, exhaustive for <= 2 calls plus a sample in the quick tier) is run on a real ClientSession and "
+                 "ServerSession over IOTransport against a raw peer (Wire.tla; clauses CompletesAnyFraming/OwnResponseAnyFraming; a hang is observed at quiescence under synctest)." if pid == "C01" else "")
+              + (" The wire part (Wire.tla) adds the complete request-shape table, every batch composition, batch id re-use judged both after the reply's Write returned and while it is still inside "
+                 "Write (pinned by a held writer), mixed response/call frames, and the same on the streamable HTTP endpoint, where a hanging exchange is an observation." if pid == "C02" else "")
               + (" Persistent senders of notifications are modelled apart in ConnNotify.tla (TLC: Close terminates under fairness with the code's admission rule, and must NOT terminate with the "
                  "'admit while not idle' rule - a sensitivity witness) and run as notifyloop scripts over a slow scripted transport." if pid == "C05" else "")),
         design_ref="DESIGN.md section 6 " + pid + ", section 5.1, section 13",
